@@ -104,6 +104,7 @@ const c18Layout = "L[@reserve(\"a\")]"
 const c18LayoutWithComp = "L@component(\"~lc\", {t: 2})[@reserve(\"a\")]"
 const c18Comp = "<c>{{ t }}</c>"
 const c18Page = "@use(\"~main\")@insert(\"a\")P@component(\"~card\", {t: 1})@end"
+const c18PageShort = "@use(\"~main\")@insert(\"a\", \"P\")@component(\"~card\", {t: 1})"
 
 // HarnessC18Faulty: one faulty file (missing, truncated, garbage, dangling link, directory in its place) makes
 // loading return a nil Template and an error naming the file; it never panics or hangs.
@@ -112,7 +113,7 @@ func HarnessC18Faulty() {
 	files := []struct{ path, content string }{
 		{"templates/layouts/main.tw", c18LayoutWithComp},
 		{"templates/components/card.tw", c18Comp},
-		{"templates/page.tw", c18Page},
+		{"templates/page.tw", []string{c18Page, c18PageShort}[vChoice("insert-form", 2)]},
 		{"templates/components/lc.tw", c18Comp}, // used by the layout only
 	}
 	which := vChoice("file", 4)
@@ -208,4 +209,48 @@ func refIsCleanRel(s string) bool {
 		}
 	}
 	return true
+}
+
+
+// HarnessC18BigFile: a file of more than one MiB evaluated by path equals its content evaluated as a string (the whole
+// content is concrete except for one symbolic byte behind the first MiB).
+func HarnessC18BigFile() {
+	vfsReset()
+	n := 1<<20 + vChoice("extra", 3) // 1 MiB, 1 MiB + 1, 1 MiB + 2 bytes of text in front of the code
+	b := make([]byte, n)
+	for i := range b {
+		b[i] = 'a'
+	}
+	x := vByte("x")
+	vAssume(x >= 'a' && x <= 'z')
+	content := string(b) + string([]byte{x}) + "{{ 1 + 1 }}"
+	vfsWriteFile("big/file.txt", content)
+	out1, err1 := EvaluateFile(vfsCwd()+"/big/file.txt", nil)
+	vCover("evaluated")
+	vAssert(err1 == nil, "file-evaluation-succeeds")
+	vAssert(len(out1) == n+2 && out1[n] == x && out1[n+1] == '2' && out1[0] == 'a' && out1[n-1] == 'a', "file-evaluation-equals-string-evaluation")
+}
+
+// HarnessC18Cycles: component files that use each other (or themselves) do not keep loading from returning.
+func HarnessC18Cycles() {
+	vfsReset()
+	switch vChoice("shape", 3) {
+	case 0:
+		vfsWriteFile("templates/components/card.tw", "<c>@component(\"~badge\")</c>")
+		vfsWriteFile("templates/components/badge.tw", "<b>@component(\"~card\")</b>")
+	case 1:
+		vfsWriteFile("templates/components/card.tw", "<c>@component(\"~card\")</c>")
+		vfsWriteFile("templates/components/badge.tw", "b")
+	default:
+		vfsWriteFile("templates/components/card.tw", "<c>@component(\"~badge\")</c>")
+		vfsWriteFile("templates/components/badge.tw", "<b>@component(\"~third\")</b>")
+		vfsWriteFile("templates/components/third.tw", "<t>@component(\"~card\")</t>")
+	}
+	vfsWriteFile("templates/page.tw", "P@component(\"~card\")")
+	tpl, err := newTemplate("templates", ".tw")
+	vCover("returned")
+	vAssert((tpl == nil) != (err == nil), "template-or-error")
+	if tpl != nil {
+		_, _ = tpl.String("page", nil)
+	}
 }
